@@ -23,10 +23,35 @@ def _cfg_variant(ctx, cfg, altsp, extra=None):
     return name, {name: txt}
 
 
+def _replay(ctx, pid, b, altsp):
+    """vcheck <ID> --replay replays/<file>: re-execute the recorded execution on the real contracts and judge it again"""
+    rp = json.load(open(ctx.replay))["replay"]
+    out = ctx.driver(b, ["replay", rp["mode"], str(rp["nv"])], input_obj=[rp])
+    t = out[0]["trace"]
+    jname, jfiles = _cfg_variant(ctx, "GovJudge.cfg", altsp)
+    jfiles["judge.ndjson"] = json.dumps(t, separators=(",", ":"), sort_keys=True) + "\n"
+    r = ctx.tlc("GovJudge", jname, workers=1, files=jfiles, timeout=600)
+    v = r.emitted("VERDICT")
+    if r.rc != 0 or len(v) != 1:
+        ctx.fail("judge run failed on the replay rc=%d:\n%s" % (r.rc, r.out[-2000:]))
+    for x in v[0]["bad"]:
+        if x["p"] == pid:
+            key = "%s:%s" % (x["p"], x["c"])
+            ctx.violation(key, {"clause": key, "actions": [_short(s["a"]) + " -> " + s["r"] for s in t["steps"][:x["n"]]]},
+                          replay=rp)
+    ctx.cov["traces_validated_against_impl"] += 1
+    ctx.cov["evaluations"] = len(t["steps"])
+    ctx.cov["distinct_nontrivial"] = len(t["steps"])
+    ctx.sample({"replayed": [_short(s["a"]) + " -> " + s["r"] for s in t["steps"]]})
+    return {"edges": 0}, altsp
+
+
 def run_gov(ctx, pid, mode, gen_cfg, nv, depth, cap, mc_cfg=None, min_edges=300):
     b = ctx.build("vd-gov")
     probe = ctx.driver(b, ["probe"])
     altsp = bool(probe[0]["altsp_accepted"])
+    if ctx.replay:
+        return _replay(ctx, pid, b, altsp)
     ctx.note("real RegisterCandidate %s the upper-case hex spelling of a key" % ("accepts" if altsp else "refuses"))
     if mc_cfg:
         name, files = _cfg_variant(ctx, mc_cfg, altsp)
@@ -82,8 +107,8 @@ def run_gov(ctx, pid, mode, gen_cfg, nv, depth, cap, mc_cfg=None, min_edges=300)
     if summ["matched"] < len(edges) // 10 and own == 0:
         # almost nothing conforms and the monitor of this property has nothing to say: no basis for "held"
         ctx.fail("only %d of %d edges conform and no %s clause is violated: no verdict" % (summ["matched"], len(edges), pid))
-    ctx.cov["evaluations"] = summ["edges"] + summ["offmodel"]
-    ctx.cov["distinct_nontrivial"] = summ["distinct"]
+    ctx.cov["evaluations"] += summ["edges"] + summ["offmodel"]
+    ctx.cov["distinct_nontrivial"] += summ["distinct"]
     return summ, altsp
 
 
